@@ -267,3 +267,101 @@ Check C07_stream_never_panics :
   List.Forall cres_fuel_only (fst (run_calls (stream_new o k) cs)) /\
   fuel_only (fst (stream_finish (snd (run_calls (stream_new o k) cs)))).
 Print Assumptions C07_stream_never_panics.
+
+From LZ Require Import Model.Lzma2 Model.Xz Model.Stream Proofs.StreamLatch Proofs.FuelAdequacy2 Proofs.FuelAdequacyXz Proofs.FuelAdequacyXzChain Proofs.FuelAdequacyStream.
+
+(* termination of the LZMA2 decoder: with fuel >= 16913 * (remaining input + 21) the run is never Panicked (chunk loop and per-chunk symbol loop under the Take limit)   [proved as lzma2_decompress_total in Proofs/FuelAdequacy2.v] *)
+Theorem C07_lzma2_decompress_total :
+  forall (fuel : positive) (io0 : io),
+  NoPanic.SrcBytes (i_src io0) ->
+  16913 * (nlen (s_rest (i_src io0)) + 21) <= N.pos fuel ->
+  let (o, w') := lzma2_decompress_top fuel io0 in
+  match o with
+  | Panicked _ => False
+  | _ => NoPanic.SrcBytes (i_src w') /\ nlen (s_rest (i_src w')) <= nlen (s_rest (i_src io0))
+  end.
+Proof. exact (@lzma2_decompress_total). Qed.
+Check C07_lzma2_decompress_total :
+  forall (fuel : positive) (io0 : io),
+  NoPanic.SrcBytes (i_src io0) ->
+  16913 * (nlen (s_rest (i_src io0)) + 21) <= N.pos fuel ->
+  let (o, w') := lzma2_decompress_top fuel io0 in
+  match o with
+  | Panicked _ => False
+  | _ => NoPanic.SrcBytes (i_src w') /\ nlen (s_rest (i_src w')) <= nlen (s_rest (i_src io0))
+  end.
+Print Assumptions C07_lzma2_decompress_total.
+
+(* termination of the XZ decoder with the same linear fuel when every block reached declares one filter   [proved as xz_decompress_total_single in Proofs/FuelAdequacyXz.v] *)
+Theorem C07_xz_decompress_total_single_filter :
+  forall (crc32 crc64 : list N -> N) (fuel : positive) (w : io),
+  NoPanic.SrcBytes (i_src w) ->
+  fuel_for fuel (nlen (s_rest (i_src w))) ->
+  (forall (check : check_method) (w0 : io) (hs : N) (w1 : io),
+   run_io (header_parse crc32) w = (Done check, w0) ->
+   xz_visits crc32 crc64 fuel check w0 hs w1 -> header_single hs w1) ->
+  let (o, w') := xz_decompress crc32 crc64 fuel w in
+  match o with
+  | Panicked _ => False
+  | _ => NoPanic.SrcBytes (i_src w')
+  end.
+Proof. exact (@xz_decompress_total_single). Qed.
+Check C07_xz_decompress_total_single_filter :
+  forall (crc32 crc64 : list N -> N) (fuel : positive) (w : io),
+  NoPanic.SrcBytes (i_src w) ->
+  fuel_for fuel (nlen (s_rest (i_src w))) ->
+  (forall (check : check_method) (w0 : io) (hs : N) (w1 : io),
+   run_io (header_parse crc32) w = (Done check, w0) ->
+   xz_visits crc32 crc64 fuel check w0 hs w1 -> header_single hs w1) ->
+  let (o, w') := xz_decompress crc32 crc64 fuel w in
+  match o with
+  | Panicked _ => False
+  | _ => NoPanic.SrcBytes (i_src w')
+  end.
+Print Assumptions C07_xz_decompress_total_single_filter.
+
+(* unconditional termination of the XZ decoder (up to 4 chained filters: an LZMA2 output is at most 2^21 times its input)   [proved as xz_decompress_total in Proofs/FuelAdequacyXzChain.v] *)
+Theorem C07_xz_decompress_total :
+  forall (crc32 crc64 : list N -> N) (fuel : positive) (w : io),
+  NoPanic.SrcBytes (i_src w) ->
+  fuel_for fuel (CHAIN * nlen (s_rest (i_src w))) ->
+  let (o, w') := xz_decompress crc32 crc64 fuel w in
+  match o with
+  | Panicked _ => False
+  | _ => NoPanic.SrcBytes (i_src w')
+  end.
+Proof. exact (@xz_decompress_total). Qed.
+Check C07_xz_decompress_total :
+  forall (crc32 crc64 : list N -> N) (fuel : positive) (w : io),
+  NoPanic.SrcBytes (i_src w) ->
+  fuel_for fuel (CHAIN * nlen (s_rest (i_src w))) ->
+  let (o, w') := xz_decompress crc32 crc64 fuel w in
+  match o with
+  | Panicked _ => False
+  | _ => NoPanic.SrcBytes (i_src w')
+  end.
+Print Assumptions C07_xz_decompress_total.
+
+(* the streaming decoder never panics and never runs out of its 2^62 fuel: any write / flush sequence with calls of up to 2.7e14 bytes each, followed by finish   [proved as stream_total in Proofs/FuelAdequacyStream.v] *)
+Theorem C07_stream_total :
+  forall (o : options) (k : snk) (cs : list call),
+  Forall
+    (fun c : call =>
+     match c with
+     | CWrite d => NoPanicLoops.Bytes d /\ nlen d <= 272671082506180
+     | CFlush => True
+     end) cs ->
+  Forall cres_not_panicked (fst (run_calls (stream_new o k) cs)) /\
+  NoPanicWorld.not_panicked (fst (stream_finish (snd (run_calls (stream_new o k) cs)))).
+Proof. exact (@stream_total). Qed.
+Check C07_stream_total :
+  forall (o : options) (k : snk) (cs : list call),
+  Forall
+    (fun c : call =>
+     match c with
+     | CWrite d => NoPanicLoops.Bytes d /\ nlen d <= 272671082506180
+     | CFlush => True
+     end) cs ->
+  Forall cres_not_panicked (fst (run_calls (stream_new o k) cs)) /\
+  NoPanicWorld.not_panicked (fst (stream_finish (snd (run_calls (stream_new o k) cs)))).
+Print Assumptions C07_stream_total.
